@@ -557,6 +557,11 @@ func (fs *fileSystem) Rename(oldname, newname string) error {
 			// oldinode cannot become a descendant of itself.
 			return oldinode, ErrInvalidArgument
 		}
+		if olddirf.inode == newdirf.inode && oldname == newname {
+			// Renaming an inode onto itself is a no-op (and
+			// must not delete it from its parent).
+			return oldinode, nil
+		}
 		if oldinode.FS() != cfs && newdirf.inode != olddirf.inode {
 			// moving a mount point to a different parent
 			// is not (yet) supported.
